@@ -24,6 +24,7 @@ import (
 	"syscall"
 	"time"
 
+	goconfig "github.com/TheCacophonyProject/go-config"
 	cptv "github.com/TheCacophonyProject/go-cptv"
 	"github.com/TheCacophonyProject/lepton3"
 	"gopkg.in/yaml.v1"
@@ -85,7 +86,21 @@ func runE2E(in *bufio.Scanner, w *bufio.Writer) {
 			// injected clock for the recording window
 			windowInitially = vKv(f, "window") == "1"
 			windowOpenNow = windowInitially
-			if !conf.Recorder.Window.NoWindow {
+			if vKv(f, "windowset") == "2" {
+				// a window relative to sunset / sunrise: the clock shows solar midnight (open) or solar noon (closed) at the
+				// longitude the window is computed for (the default location when latitude or longitude is not configured)
+				lat, lon := float64(conf.Location.Latitude), float64(conf.Location.Longitude)
+				if lat == 0 || lon == 0 {
+					lon = float64(goconfig.DefaultWindowLocation().Longitude)
+				}
+				noon := time.Date(2021, 3, 4, 12, 0, 0, 0, time.UTC).Add(-time.Duration(lon / 15 * float64(time.Hour)))
+				conf.Recorder.Window.Now = func() time.Time {
+					if windowOpenNow {
+						return noon.Add(12 * time.Hour)
+					}
+					return noon
+				}
+			} else if !conf.Recorder.Window.NoWindow {
 				conf.Recorder.Window.Now = func() time.Time {
 					if windowOpenNow {
 						return time.Date(2021, 3, 4, 10, 50, 0, 0, time.UTC)
@@ -321,6 +336,7 @@ type e2eCfg struct {
 	devName                                                             string
 	lat, lon, alt, acc                                                  float32
 	locMode, diskNear                                                   int
+	relMode                                                             int
 	tickBad                                                             int // a bad frame exactly on the frame the periodic frame-count log line is printed for
 	serial                                                              int
 	firmware                                                            string
@@ -355,7 +371,11 @@ func (c e2eCfg) toml() string {
 		loc = fmt.Sprintf("[location]\nlatitude = %v\n", c.lat)
 	}
 	win := "start-recording = \"12:00\"\nstop-recording = \"12:00\"\n"
-	if c.windowSet == 1 {
+	if c.windowSet == 2 {
+		// relative to sunset / sunrise; identical strings are an ordinary night window here (only identical ABSOLUTE times mean "no window")
+		win = []string{"start-recording = \"30m\"\nstop-recording = \"30m\"\n", "start-recording = \"-30m\"\nstop-recording = \"+30m\"\n",
+			"start-recording = \"0s\"\nstop-recording = \"0s\"\n"}[c.relMode]
+	} else if c.windowSet == 1 {
 		win = "start-recording = \"10:00\"\nstop-recording = \"11:00\"\n"
 		// the power window (when the camera is switched on) is a different pair of settings and wider
 		// than the recording window: 12:30, the "closed" clock, is inside it
@@ -427,6 +447,9 @@ func genE2E(r *vRng, tier string, w *bufio.Writer) {
 			// max-secs below min-secs: the daemon must refuse the configuration
 			c.min = r.pick(1, 2, 5)
 			c.max = c.min - 1
+		}
+		if c.windowSet == 1 && r.chance(35) {
+			c.windowSet, c.relMode = 2, r.pick(0, 1, 2)
 		}
 		if c.windowSet == 0 {
 			c.window = 1
@@ -604,7 +627,7 @@ func genE2EConn(r *vRng, c e2eCfg, w *bufio.Writer, last bool) {
 	}
 	hot := 0
 	winNow := c.window
-	cooling := c.dyn == 1 && c.windowSet == 1 && c.lepton == 0 && c.motionDefaults == 0
+	cooling := c.dyn == 1 && c.windowSet != 0 && c.lepton == 0 && c.motionDefaults == 0
 	validCount := 0
 	tonMs := uint32(r.rng(20000, 900000))
 	lastFFC := uint32(0)
@@ -625,7 +648,7 @@ func genE2EConn(r *vRng, c e2eCfg, w *bufio.Writer, last bool) {
 		case x < 9 && validCount > 0:
 			flush(validCount, true)
 			continue
-		case x < 13 && validCount > 0 && c.windowSet == 1 && len(stream) > 0:
+		case x < 13 && validCount > 0 && c.windowSet != 0 && len(stream) > 0:
 			// the recording window opens / closes while the camera is streaming
 			winNow = 1 - winNow
 			flushW = 1 + winNow
